@@ -332,6 +332,15 @@ let cmd_engine (args : sx list) : sx =
       let snd_ = if want 's' then [A "sound"; bool_sx (lab_ok matrix_dom m_goodb atoms_self a (compute_lab matrix_dom atoms_self a) cs)] else [] in
       let cpl = if want 'c' then [A "complete"; bool_sx (cert_complete (char_entails mkey_eqb) (char_refutes mkey_eqb) a cs pres)] else [] in
       L (wf @ snd_ @ cpl)
+  | [A "occ"; A "str"; p; h] ->
+      let pat = sx_spat p and host = sx_shost h in
+      if pat = [] then L [A "u"]
+      else L (List.filter_map (fun i -> if occ_stringb pat host (n_of_int i) then Some (int_sx i) else None)
+                (List.init (List.length host) (fun i -> i)))
+  | [A "occ"; A "mat"; p; h] ->
+      let pat = sx_mpat p and host = sx_mhost h in
+      L (List.filter_map (fun (r, c) -> if occ_matrixb pat host (r, c) then Some (L [n_sx r; n_sx c]) else None)
+           (all_cells_from host N0))
   | _ -> failwith "engine args"
 
 let dispatch (x : sx) : sx =
@@ -343,7 +352,7 @@ let dispatch (x : sx) : sx =
   | L (A "c16" :: args) -> cmd_c16 args
   | L (A "c14" :: args) -> cmd_c14 args
   | L (A "c15" :: args) -> cmd_c15 args
-  | L ((A ("aut-run" | "cvec" | "single" | "naive" | "cert")) :: _ as args) -> cmd_engine args
+  | L ((A ("aut-run" | "cvec" | "single" | "naive" | "cert" | "occ")) :: _ as args) -> cmd_engine args
   | _ -> failwith "unknown command"
 
 let () =
